@@ -8,8 +8,17 @@
 // sub-range, three chunkings each) and the boundary neighbourhoods for the other page sizes.
 #include <babylon/logging/async_file_appender.h>
 #include <babylon/logging/log_entry.h>
+// log_entry.cpp is compiled into this translation unit (the archive member is then not pulled in) because the
+// unit is built with -fno-sanitize=bounds (see c20_logentry.reg.json): LogStreamBuffer forms
+// `_log.pages + INLINE_PAGE_CAPACITY`, one slot past the declared `pages[INLINE_PAGE_CAPACITY - 1]`, on purpose
+// (the last inline slot is overlaid with `head`). UBSan's array-bounds check reports that on every entry of the
+// unchanged tree; it is not what C20 is about.
+#include <babylon/logging/log_entry.cpp>
+
+#include <sanitizer/asan_interface.h>
 
 #include <algorithm>
+#include <map>
 #include <memory>
 #include <ostream>
 #include <set>
@@ -39,38 +48,63 @@ const std::string& cur_desc() {
 // ---- recording allocator ------------------------------------------------------------------
 // Every page is its own exact-size heap block, so a write past a page (or past a page table) is an
 // ASan report; pages are poisoned before they are freed.
+// Raw blocks are recycled through a per-page-size cache (ASan's malloc is slow for thousands of 4 KiB blocks);
+// a cached block is poisoned for ASan, so a touch of a released page is still a report.
+std::vector<void*>& block_cache(size_t ps) {
+  static std::map<size_t, std::vector<void*>>* m = new std::map<size_t, std::vector<void*>>();
+  return (*m)[ps];
+}
+
 struct RecordingAllocator : public babylon::PageAllocator {
   size_t ps = 32;
-  std::set<void*> outstanding;
+  std::vector<void*>* cache = nullptr;
+  std::vector<void*> outstanding;  // sorted
   std::vector<void*> handed;  // pages handed out since the last mark()
   size_t total_allocs = 0;
 
+  void release_block(void* p) {
+    memset(p, 0xDD, ps);
+    if (cache->size() < 2048) {
+      ASAN_POISON_MEMORY_REGION(p, ps);
+      cache->push_back(p);
+    } else {
+      free(p);
+    }
+  }
   ~RecordingAllocator() noexcept override {
-    for (void* p : outstanding) free(p);
+    for (void* p : outstanding) release_block(p);
   }
   size_t page_size() const noexcept override { return ps; }
   using PageAllocator::allocate;
   using PageAllocator::deallocate;
   void allocate(void** pages, size_t num) noexcept override {
+    if (!cache) cache = &block_cache(ps);
     for (size_t i = 0; i < num; i++) {
-      void* p = malloc(ps);
+      void* p;
+      if (!cache->empty()) {
+        p = cache->back();
+        cache->pop_back();
+        ASAN_UNPOISON_MEMORY_REGION(p, ps);
+      } else {
+        p = malloc(ps);
+      }
       memset(p, 0x5A, ps);
-      outstanding.insert(p);
+      outstanding.insert(std::lower_bound(outstanding.begin(), outstanding.end(), p), p);
       handed.push_back(p);
       total_allocs++;
       pages[i] = p;
     }
   }
   void deallocate(void** pages, size_t num) noexcept override {
+    if (!cache) cache = &block_cache(ps);
     for (size_t i = 0; i < num; i++) {
       void* p = pages[i];
-      auto it = outstanding.find(p);
-      if (it == outstanding.end())
+      auto it = std::lower_bound(outstanding.begin(), outstanding.end(), p);
+      if (it == outstanding.end() || *it != p)
         vfz::fail(cur_desc(), "deallocate(%p): not an outstanding page of this allocator (double release or foreign pointer), %zu of %zu in this call",
                   p, i, num);
       outstanding.erase(it);
-      memset(p, 0xDD, ps);
-      free(p);
+      release_block(p);
     }
   }
   void mark() { handed.clear(); }
@@ -111,14 +145,22 @@ struct Built {
   size_t off, len;             // expected bytes = pool()[off, off+len)
 };
 
+AsyncFileAppender& shared_appender() {
+  static AsyncFileAppender* a = new AsyncFileAppender();
+  return *a;
+}
+
 struct Env {
   RecordingAllocator alloc;
-  AsyncFileAppender appender;  // never initialised: only discard() is used
+  // never initialised, only discard() is used; one per process because its (unused) 1024-slot queue is a
+  // quarter of a megabyte of fresh memory per construction. The only state discard() reads is the allocator pointer.
+  AsyncFileAppender& appender = shared_appender();
   LogStreamBuffer buf;
   std::vector<struct ::iovec> iov;
   std::string got;
   explicit Env(size_t ps) {
     alloc.ps = ps;
+    alloc.cache = &block_cache(ps);
     appender.set_page_allocator(alloc);
     buf.set_page_allocator(alloc);
   }
@@ -263,10 +305,28 @@ void run_sweeps() {
   g_desc = nullptr;
 }
 
+// Decoder: the fuzzer's bytes first, then (instead of zeros) a PRNG seeded with the hash of the whole input, so a
+// short input still denotes a complete, deterministic, non-degenerate case.
+struct HDec {
+  vfz::Dec d;
+  uint64_t x;
+  HDec(const uint8_t* p, size_t n) : d(p, n), x(vfz::hash_bytes(p, n) | 1) {}
+  bool done() const { return false; }
+  uint8_t u8() {
+    if (!d.done()) return d.u8();
+    x ^= x << 13; x ^= x >> 7; x ^= x << 17;
+    return (uint8_t)(x >> 40);
+  }
+  uint16_t u16() { uint16_t a = u8(); return (uint16_t)(a | (u8() << 8)); }
+  uint32_t u32() { uint32_t a = u16(); return a | ((uint32_t)u16() << 16); }
+  uint32_t below(uint32_t m) { return m <= 1 ? 0 : (m <= 256 ? u8() % m : u32() % m); }
+  bool flip() { return u8() & 1; }
+};
+
 // ---- fuzzed case -------------------------------------------------------------------------------
 const size_t PAGE_SIZES[] = {32, 64, 128, 256, 512, 1024, 2048, 4096, 32, 64, 128, 256, 40, 48, 56, 72, 96, 104, 200, 1000, 4088};
 
-size_t decode_length(vfz::Dec& d, size_t ps, size_t max_len) {
+size_t decode_length(HDec& d, size_t ps, size_t max_len) {
   size_t cap = table_capacity(ps);
   size_t kmax = 1;
   while (kmax < 3 && (INLINE + (kmax + 1) * cap) * ps + 2 <= max_len) kmax++;
@@ -293,12 +353,12 @@ size_t decode_length(vfz::Dec& d, size_t ps, size_t max_len) {
   return len;
 }
 
-std::vector<Chunk> decode_plan(vfz::Dec& d, size_t ps, size_t len, std::string& desc) {
+std::vector<Chunk> decode_plan(HDec& d, size_t ps, size_t len, std::string& desc) {
   std::vector<Chunk> plan;
   size_t done = 0;
-  int steps = 0;
+  int nops = d.below(4) == 0 ? 0 : (int)d.below(25);  // the remainder always goes out in one sputn
   char b[48];
-  while (!d.done() && done < len && steps++ < 64) {
+  for (int step = 0; step < nops && done < len; step++) {
     uint8_t op = d.u8() % 14;
     size_t room = ps - done % ps;  // bytes to the end of the page being filled (ps when at an edge)
     Chunk c{K_PUTN, 0};
@@ -329,6 +389,10 @@ std::vector<Chunk> decode_plan(vfz::Dec& d, size_t ps, size_t len, std::string& 
 
 }  // namespace
 
+// Fresh memory is expensive in this sandbox (slow page faults): a small quarantine lets ASan reuse freed chunks.
+// The pages under test never go through the quarantine anyway (poisoned block cache above).
+extern "C" const char* __asan_default_options() { return "quarantine_size_mb=8"; }
+
 extern "C" int LLVMFuzzerTestOneInput(const uint8_t* data, size_t size) {
   vfz::begin_case(RULE);
   static bool swept = false;
@@ -337,7 +401,7 @@ extern "C" int LLVMFuzzerTestOneInput(const uint8_t* data, size_t size) {
     run_sweeps();
   }
   if (size < 2) return 0;
-  vfz::Dec d(data, size);
+  HDec d(data, size);
   std::string desc;
   g_desc = &desc;
   size_t ps = PAGE_SIZES[d.below(sizeof PAGE_SIZES / sizeof PAGE_SIZES[0])];
